@@ -65,7 +65,45 @@ class C16:
                 'offset': rng.choice([1.0, 100.0, 0.0]),
                 'scale': rng.choice([0.1, 1.0, 30.0])}
 
+    def generate_sweep(self, rng, tier):
+        """Every fault kind at every tracked call index of one HDF5 save (and
+        of one load of an acknowledged file), each in a fresh process."""
+        b = Builder(rng)
+        args = self.draw_image(rng)
+        n = 0
+        for phase in ('save', 'load'):
+            for fk in (1, 2, 3, 4):
+                for idx in range(15 if phase == 'save' else 10):
+                    n += 1
+                    path = 'sweep_%d.h5' % n
+                    img = b.emit('image', args, store='det',
+                                 tags={'k': 'image',
+                                       'multi': bool(args['channels'])})
+                    if phase == 'save':
+                        b.emit('arm_io_fault', {'kind': fk, 'index': idx,
+                                                'err': rng.choice([28, 5,
+                                                                   122])})
+                    b.emit('img_save', {'img': img, 'path': path},
+                           tags={'k': 'h5-save', 'save': True, 'fmt': 'h5'})
+                    if phase == 'save':
+                        b.restart()
+                    else:
+                        b.emit('arm_io_fault', {'kind': fk, 'index': idx,
+                                                'err': rng.choice([5, 13])})
+                    b.emit('img_load', {'path': path}, store='det',
+                           tags={'k': 'h5-load', 'load': True, 'fmt': 'h5'})
+                    if phase == 'load':
+                        b.restart()
+                        b.emit('img_load', {'path': path}, store='det',
+                               tags={'k': 'h5-load', 'load': True,
+                                     'fmt': 'h5'})
+        return {'config': {'faults': {'io': True, 'F1': True},
+                           'mode': 'fault-sweep', 'node': {}},
+                'events': b.events}
+
     def generate(self, rng, tier='quick'):
+        if rng.random() < (0.03 if tier == 'quick' else 0.25):
+            return self.generate_sweep(rng, tier)
         b = Builder(rng)
         faulty = rng.random() < 0.4
         faults = {'F1': rng.random() < 0.5, 'io': faulty,
